@@ -1055,7 +1055,7 @@ func main() {
 	fx.CallOrders["guard_markBlockRequestComplete"] = stmtSkeleton(root, root.funcs["BlockManager.markBlockRequestComplete"])
 	// C06: the critical sections of the transaction manager's three entry points (the model takes each as one
 	// atomic step; races between them are below the call granularity of the correspondence)
-	for _, fn := range []string{"AddTxID", "AddTx", "GetTxRequests"} {
+	for _, fn := range []string{"AddTxID", "AddTx", "GetTxRequests", "Clean"} {
 		if fd := root.funcs["TxManager."+fn]; fd != nil {
 			fx.CallOrders["locks_"+fn] = lockTrace(root, fd, false)
 		} else {
@@ -1242,7 +1242,7 @@ func writeLean(path string, fx *facts) {
 		wrList("callOrder_"+k, fx.CallOrders[k])
 	}
 	wrList("guard_markBlockRequestComplete", fx.CallOrders["guard_markBlockRequestComplete"])
-	for _, k := range []string{"AddTxID", "AddTx", "GetTxRequests"} {
+	for _, k := range []string{"AddTxID", "AddTx", "GetTxRequests", "Clean"} {
 		wrList("locks_"+k, fx.CallOrders["locks_"+k])
 	}
 	b.WriteString("\n/-- mutex and channel operations (with the control structure and returns around them) of the block download machinery, in source order. -/\n")
